@@ -21,7 +21,7 @@ ObsIdeal(o) == /\ ObsState(o)
 ObsSeqKF(o) == /\ ObsState(o)
                /\ \A k \in DOMAIN o.replays :
                      \/ ReplayOK(files', k - 1, o.replays[k])
-                     \/ ReplayKF_SeqNotChecksummed(files', k - 1, o.replays[k])
+                     \/ KF_C15_SequenceNotChecksummed(files', k - 1, o.replays[k])
 Obs == \/ ObsIdeal(Ev.obs) /\ Same
        \/ ~ObsIdeal(Ev.obs) /\ ObsSeqKF(Ev.obs) /\ KF("KF_C15_SequenceNotChecksummed")
 
